@@ -322,6 +322,57 @@ def names_doc(name, same_in_both_stages):
     return doc
 
 
+def stages_doc(n):
+    """a workflow with n >= 1 stages (stage i >= 2 has one component S<i>)"""
+    doc = base_doc()
+    if n == 1:
+        del doc['components'][1]
+        del doc['variables']['default']['stages'][1]
+    for stage in range(2, n):
+        doc['components'].append({'name': 'S%d' % stage, 'stage': stage, 'command': {'executable': 'true'}})
+    return doc
+
+
+def backend_var_doc(backend, how, key, value, needs=()):
+    """Options that only the legacy format knows for a backend (Dosini.options_for_backend: the simulator's sim_*)
+    are carried as component variables. The backend is named literally / through a component variable / through a
+    global variable; the second component (default backend) carries the same variable."""
+    doc = base_doc()
+    target = doc['components'][0]
+    if how == 'literal':
+        set_path(target, ('resourceManager', 'config', 'backend'), backend)
+    else:
+        set_path(target, ('resourceManager', 'config', 'backend'), '%(bk)s')
+        if how == 'component-variable':
+            target['variables']['bk'] = backend
+        else:
+            doc['variables']['default']['global']['bk'] = backend
+    for path, v in needs:
+        set_path(target, tuple(path.split('.')), v)
+    target['variables'][key] = value
+    doc['components'][1].setdefault('variables', {})[key] = value
+    return doc
+
+
+# structurally different descriptions for histories (several writes into ONE directory / several round trips in ONE
+# process): different numbers of stages, component names, environments, sandbox, status, output, variables, backends
+HISTORY_CASES = [
+    {'family': 'base'},
+    {'family': 'stages', 'n': 1},
+    {'family': 'weights', 'weights': [0.2, 0.3, 0.5], 'exe': False},
+    {'family': 'weights', 'weights': [0.1, 0.2, 0.3, 0.4], 'exe': True},
+    {'family': 'names', 'name': 'A-B', 'both': True},
+    {'family': 'environments', 'envs': {'e': {'A': 'b'}, 'MyEnv': {'lower': 'x', 'UPPER': 'Y'}}, 'use': 'e',
+     'app_deps': ['app.application'], 'venvs': ['venv']},
+    {'family': 'output', 'entries': [['Result', {'data-in': 'stage1.C/out.csv:ref', 'description': 'd', 'type': 'csv'}]]},
+    {'family': 'status', 'e0': {'stage-weight': 0.5, 'executable': 'progress.py', 'arguments': '-f stage0.T/out.log:ref',
+                                'references': ['stage0.T/out.log:ref']}, 'e1': {'stage-weight': 0.5}},
+    {'family': 'variables', 'scope': 'global', 'name': 'x', 'value': 'two words'},
+    {'family': 'option', 'settings': [['resourceManager.config.backend', 'lsf']], 'via': 'component'},
+    {'family': 'option', 'settings': [['workflowAttributes.replicate', 4]], 'via': 'stage-blueprint'},
+]
+
+
 def platform_doc(variant):
     """An instance generated for a NON default platform: platform variables / environments / blueprint / override
     must all be baked into what is written."""
